@@ -110,6 +110,9 @@ TraceNext == \/ TrAdd \/ TrPull \/ TrDeliver \/ TrSilent \/ TrQuiet \/ TrFinish 
              \/ Done
 TraceSpec == TraceInit /\ [][TraceNext]_tvars
 
-(* number of traces fully consumed, for the harness's cross-check *)
-ConsumedCount == Consumed => TLCSet(1, TRUE)
+(* Acceptance.  Where the property leaves the code a choice that is not logged (the order in which
+   a dropped connection's jobs are re-queued decides the order of the wake-ups), the trace spec
+   branches, and a branch that guessed wrong simply ends.  A trace is accepted iff SOME branch
+   consumes it: every consumed trace reports its number, the harness compares with the batch. *)
+EmitConsumed == Consumed => PrintT("@@" \o ToJson([consumed |-> tid]))
 =============================================================================
